@@ -54,8 +54,19 @@ def build_objects():
         return list(ex.map(_compile_obj, SRCS))
 
 
+_driver_cache = {}
+
+
 def run_driver(name, args=(), timeout=120):
-    """compile replay/<name>.cpp against the working tree and run it; returns (reproduced, text)"""
+    """compile replay/<name>.cpp against the working tree and run it; returns (reproduced, text); one run per driver and process"""
+    key_ = (name, tuple(str(a) for a in args))
+    if key_ in _driver_cache: return _driver_cache[key_]
+    res = _run_driver(name, args, timeout)
+    _driver_cache[key_] = res
+    return res
+
+
+def _run_driver(name, args=(), timeout=120):
     objs = build_objects()
     src = os.path.join(ROOT, 'replay', name + '.cpp')
     h = hashlib.sha256(open(src, 'rb').read()); h.update(open(os.path.join(ROOT, 'replay', 'harness.hpp'), 'rb').read())
